@@ -35,7 +35,7 @@ PROFILE = {
 }
 
 CLF_ENCODINGS = ["float10_nan", "int_m1", "int_99", "obj_none", "str_zz",
-                 "str_empty"]
+                 "str_empty", "str_long", "str_grow"]
 
 
 def enc_class(enc):
@@ -46,6 +46,7 @@ def enc_class(enc):
             "obj_none": "string_labels&sentinel=None",
             "str_zz": "string_labels", "str_empty": "string_labels",
             "str_long": "string_labels",
+            "str_grow": "string_labels",
             "objnum_none": "object_numeric_labels&sentinel=None"}[enc]
 
 
